@@ -553,6 +553,76 @@ pub fn string_hist<const C: usize>(seq: &[usize], _heap: bool) -> R {
 }
 
 // ------------------------------------------------------------------------------------------------
+pub fn option_hist(seq: &[usize]) -> R {
+    use iceoryx2_bb_container::relocatable_option::RelocatableOption;
+    life_reset();
+    {
+        let mut m: Option<u8> = None;
+        let mut q: RelocatableOption<El> = RelocatableOption::None;
+        for (step, o) in seq.iter().enumerate() {
+            let val = step as u8 + 1;
+            match o {
+                0 => {
+                    op("replace");
+                    let old = q.replace(El::new(val)).to_option().map(|e| e.v());
+                    if old != m.replace(val) {
+                        bad!("replace_result", "replace returned {:?}", old);
+                    }
+                }
+                1 => {
+                    op("take");
+                    let t = q.take().to_option().map(|e| e.v());
+                    if t != m.take() {
+                        bad!("take_result", "take returned {:?}", t);
+                    }
+                }
+                2 | 3 => {
+                    op("take_if");
+                    let want = *o == 2;
+                    let t = q.take_if(|e| {
+                        let _ = e.v();
+                        want
+                    })
+                    .to_option()
+                    .map(|e| e.v());
+                    let exp = if want { m.take() } else { None };
+                    if t != exp {
+                        bad!("take_if_result", "take_if({}) returned {:?} model {:?}", want, t, exp);
+                    }
+                }
+                4 => {
+                    op("as_mut");
+                    if let Some(e) = q.as_option_mut() {
+                        *e = El::new(val);
+                        m = Some(val);
+                    } else if m.is_some() {
+                        bad!("as_mut_result", "as_option_mut is None although a value is stored");
+                    }
+                }
+                5 => {
+                    op("map");
+                    let taken = core::mem::replace(&mut q, RelocatableOption::None);
+                    q = taken.map(|e| El::new(e.v().wrapping_add(1)));
+                    m = m.map(|v| v.wrapping_add(1));
+                }
+                _ => {
+                    op("unwrap_or");
+                    let taken = core::mem::replace(&mut q, RelocatableOption::None);
+                    let v = taken.unwrap_or(El::new(200)).v();
+                    if v != m.take().unwrap_or(200) {
+                        bad!("unwrap_or_result", "unwrap_or returned {}", v);
+                    }
+                }
+            }
+            op("observers");
+            if q.is_some() != m.is_some() || q.is_none() != m.is_none() || q.as_option_ref().map(|e| e.v()) != m {
+                bad!("observers", "is_some {} value {:?} model {:?}", q.is_some(), q.as_option_ref().map(|e| e.v()), m);
+            }
+        }
+    }
+    life_check()
+}
+
 struct Target {
     name: &'static str,
     alphabet: usize,
@@ -587,6 +657,7 @@ fn targets() -> Vec<Target> {
         Target { name: "vec:heap:cap1", alphabet: 10, run: |s| vec_hist::<1>(s, true) },
         Target { name: "vec:heap:cap2", alphabet: 10, run: |s| vec_hist::<2>(s, true) },
         Target { name: "vec:heap:cap3", alphabet: 10, run: |s| vec_hist::<3>(s, true) },
+        Target { name: "option:relocatable", alphabet: 7, run: |s| option_hist(s) },
         Target { name: "string:static:cap1", alphabet: 19, run: |s| string_hist::<1>(s, false) },
         Target { name: "string:static:cap2", alphabet: 19, run: |s| string_hist::<2>(s, false) },
         Target { name: "string:static:cap3", alphabet: 19, run: |s| string_hist::<3>(s, false) },
